@@ -438,6 +438,7 @@ impl Prop for C11 {
             await_breaks: vec![],
             stop_cmds: vec![],
             trace_via_command: false,
+            reply_breaks: vec![],
         };
         let nums: Vec<u64> = prog.lines.iter().map(|l| l.num).collect();
         let existing = rng.pick(&nums);
